@@ -1159,6 +1159,25 @@ class Interp:
             k = kw["key"]
             return {"sorted": sorted, "min": min, "max": max}[fname](
                 args[0], key=lambda v_: self.call_function(k.fn, [v_], k.env))
+        if fname in ("chain", "itertools.chain") and not kw and \
+                "chain" not in self.calls:
+            out_ = []
+            for part in args:
+                out_.extend(list(part))
+            return out_
+        if fname in ("chain.from_iterable", "itertools.chain.from_iterable") \
+                and len(args) == 1 and not kw:
+            out_ = []
+            for part in list(args[0]):
+                out_.extend(list(part))
+            return out_
+        if fname == "dict.fromkeys" and 1 <= len(args) <= 2 and not kw:
+            return dict.fromkeys(list(args[0]), *args[1:])
+        if fname == "setattr" and len(args) == 3 and isinstance(
+                args[0], Obj) and isinstance(args[1], str) and \
+                "setattr" not in self.calls:
+            args[0].fields[args[1]] = args[2]
+            return None
         if fname == "dict" and not args and kw and "dict" not in env:
             return dict(kw)         # dict(name=value, ...): values as they are
         if fname in _BUILTINS:
